@@ -119,7 +119,7 @@ class Tacd:
         self.errf.close()
 
     # ------------------------------------------------------------ connections
-    def tls(self, offer, sni="example.org", timeout=4):
+    def tls(self, offer, sni="example.org", timeout=4, max12=False):
         """TLS client offering `offer` (list; [] = no ALPN extension). Returns the result record of Tacd.tla."""
         vc = vcrypto.shared()
         res = {"completed": False, "selected": "none", "sans": [], "acme_critical": False, "acme_value": "none", "self_signed": False,
@@ -129,6 +129,8 @@ class Tacd:
         ctx.verify_mode = ssl.CERT_NONE
         if offer:
             ctx.set_alpn_protocols(offer)
+        if max12:
+            ctx.maximum_version = ssl.TLSVersion.TLSv1_2
         try:
             raw = self._connect(timeout)
         except OSError as ex:
